@@ -117,6 +117,9 @@ pub enum Op {
     GarbageKey,
     DeleteCert,
     DeleteKey,
+    /// the path is a DIRECTORY (reading it fails with an I/O error that is not 'not found')
+    CertIsDir,
+    KeyIsDir,
     Reload,
     /// certificate file and key file of one material written together
     WritePair(usize),
@@ -133,6 +136,8 @@ fn op_str(o: &Op, mats: &[Material]) -> String {
         Op::GarbageKey => "garbage-key".into(),
         Op::DeleteCert => "delete-cert".into(),
         Op::DeleteKey => "delete-key".into(),
+        Op::CertIsDir => "cert-path-is-a-directory".into(),
+        Op::KeyIsDir => "key-path-is-a-directory".into(),
         Op::Reload => "reload".into(),
     }
 }
@@ -240,6 +245,18 @@ async fn snapshot(r: &CertReloader) -> Result<(Snapshot, TlsPair), String> {
 }
 
 fn apply_disk(op: &Op, st: &State, mats: &[Material]) {
+    // a path that was turned into a directory becomes a file again with the next write
+    for p in [&st.cert, &st.key] {
+        let touches = match op {
+            Op::WriteCert(_) | Op::TruncCert(_) | Op::GarbageCert | Op::DeleteCert | Op::CertIsDir => p == &st.cert,
+            Op::WriteKey(_) | Op::TruncKey(_) | Op::GarbageKey | Op::DeleteKey | Op::KeyIsDir => p == &st.key,
+            Op::WritePair(_) => true,
+            Op::Reload => false,
+        };
+        if touches && p.is_dir() {
+            let _ = std::fs::remove_dir_all(p);
+        }
+    }
     match op {
         Op::WriteCert(i) => std::fs::write(&st.cert, &mats[*i].cert_pem).unwrap(),
         Op::WriteKey(i) => std::fs::write(&st.key, &mats[*i].key_pem).unwrap(),
@@ -261,6 +278,14 @@ fn apply_disk(op: &Op, st: &State, mats: &[Material]) {
         }
         Op::DeleteKey => {
             let _ = std::fs::remove_file(&st.key);
+        }
+        Op::CertIsDir => {
+            let _ = std::fs::remove_file(&st.cert);
+            let _ = std::fs::create_dir_all(&st.cert);
+        }
+        Op::KeyIsDir => {
+            let _ = std::fs::remove_file(&st.key);
+            let _ = std::fs::create_dir_all(&st.key);
         }
         Op::Reload => {}
     }
@@ -763,7 +788,7 @@ pub fn run(tier: Tier) -> i32 {
     let base = PathBuf::from(format!("{}/scratch/c18-{}", verif_dir(), std::process::id()));
     let _ = std::fs::create_dir_all(&base);
     // ---- alphabet and histories
-    let disk_ops = vec![Op::WriteCert(1), Op::WriteKey(1), Op::WriteCert(2), Op::WriteKey(2), Op::WriteCert(3), Op::WriteKey(3), Op::WriteCert(4), Op::WriteKey(0), Op::WriteCert(5), Op::WriteKey(5), Op::WritePair(6), Op::WritePair(7), Op::WritePair(8), Op::TruncCert(500), Op::TruncKey(500), Op::GarbageCert, Op::GarbageKey, Op::DeleteCert, Op::DeleteKey];
+    let disk_ops = vec![Op::WriteCert(1), Op::WriteKey(1), Op::WriteCert(2), Op::WriteKey(2), Op::WriteCert(3), Op::WriteKey(3), Op::WriteCert(4), Op::WriteKey(0), Op::WriteCert(5), Op::WriteKey(5), Op::WritePair(6), Op::WritePair(7), Op::WritePair(8), Op::TruncCert(500), Op::TruncKey(500), Op::GarbageCert, Op::GarbageKey, Op::DeleteCert, Op::DeleteKey, Op::CertIsDir, Op::KeyIsDir];
     let mut alphabet = disk_ops.clone();
     alphabet.push(Op::Reload);
     let depth = if thorough { 4 } else { 3 };
